@@ -154,18 +154,29 @@ func useInfo(fi os.FileInfo, err error) {
 type replyMut struct {
 	desc string
 	f    func(valid []byte) []byte
+	// cut > 0: the reply is sent unchanged but the server->client stream ends after its first cut bytes, with EOF or
+	// (cutErr) with a transport error: a truncated reply as the transport delivers it
+	cut    int
+	cutErr bool
 }
 
 func replyMutations(valid []byte, r interface{ Intn(int) int }, thorough bool) []replyMut {
 	var ms []replyMut
 	add := func(desc string, b []byte) {
-		ms = append(ms, replyMut{desc, func([]byte) []byte { return b }})
+		ms = append(ms, replyMut{desc: desc, f: func([]byte) []byte { return b }})
 	}
 	// cut at every byte: a shorter, self-consistent frame
 	for k := 5; k < len(valid); k++ {
 		m := append([]byte(nil), valid[:k]...)
 		binary.BigEndian.PutUint32(m, uint32(k-4))
 		add(fmt.Sprintf("cut@%d", k), m)
+	}
+	// the stream itself ends inside the reply (after the length prefix, the type byte, the id, ...), with EOF and with an error
+	for k := 1; k < len(valid); k++ {
+		if !thorough && k > 10 && k != len(valid)-1 {
+			continue
+		}
+		ms = append(ms, replyMut{desc: fmt.Sprintf("streamcut@%d:eof", k), cut: k}, replyMut{desc: fmt.Sprintf("streamcut@%d:err", k), cut: k, cutErr: true})
 	}
 	// length and count fields
 	for _, off := range lengthFieldsAll(valid) {
@@ -254,6 +265,15 @@ func runReplyCase(t testing.TB, tr *tracer, op replyOp, mut replyMut, caseNo int
 		if armed && f.Typ == op.target {
 			seen++
 			if seen == op.nth {
+				if mut.cut > 0 {
+					var e error
+					if mut.cutErr {
+						e = errInjected
+					}
+					pr.s2c.setCut(pr.s2c.nwrit+mut.cut, e)
+					sent = append([]byte(nil), reply[:min(mut.cut, len(reply))]...)
+					return reply
+				}
 				sent = mut.f(reply)
 				return sent
 			}
